@@ -33,7 +33,8 @@ RECIPES = {
     'accumulate': dict(name='accumulate'),
     'multi_channel_refine_weights': dict(name='multi_channel_refine_weights', must_fire={'G8': 2, 'G11': 1}),
     'vegas_icdf': dict(name='vegas_icdf'),
-    'vegas_refine_pdf': dict(name='vegas_refine_pdf'),
+    'vegas_refine_pdf': dict(name='vegas_refine_pdf', opts=dict(rename={'vegas_pdf_ctor2': 'vp_new_grid_uniform', 'vp_vegas_pdf_copy': 'vp_new_grid_copy'},
+                                                           member_calls={('vec_T', 'assign'): (lambda em, n, obj, args, dst: 'vp_load_data(&(%s), &(%s), %s, %s, bins, i)' % (obj, em.iter_parts(args[0])[0], em.iter_parts(args[0])[1], em.iter_parts(args[1])[1]))})),
     'vegas_pdf_ctor2': dict(name='vegas_pdf', cls='vegas_pdf', sel='(std::size_t, std::size_t)', self='vegas_pdf', ctor=True),
     'vegas_pdf_bin_left': dict(name='bin_left', cls='vegas_pdf', self='vegas_pdf'),
     'vegas_pdf_set_bin_left': dict(name='set_bin_left', cls='vegas_pdf', self='vegas_pdf'),
@@ -290,6 +291,12 @@ JOBS = [
          replace=['accumulate'], structs=[dict(cls='distribution_parameters', vec=True), dict(cls='accumulator', cls_targs=['double', '1'], cname='accumulator_dist')],
          preludes=['opaque.h'], globals=_DGHOSTS, defines=['VP_NMAX=1048576', 'VP_BINSMAX=1024', 'VP_AT_ASSUME'], props=['C11', 'C06', 'C14'],
          assumptions=['2-d cell index inside the block (non-linear): proved over the integers in job int_lemmas (L-cell-index) and assumed at the at() calls of add_to_2d_distribution']),
+    dict(name='vegas_refine_pdf', functions=['vegas_refine_pdf', 'vegas_pdf_bin_left', 'vegas_pdf_set_bin_left', 'vegas_pdf_bins', 'vegas_pdf_dimensions'],
+         specs=['vegas_refine_pdf', 'vegas_pdf_bin_left_abs', 'vegas_pdf_set_bin_left_abs'], entry='h_vegas_refine_pdf', enforce='vegas_refine_pdf',
+         replace=['vegas_pdf_bin_left', 'vegas_pdf_set_bin_left'], af=['vegas_refine_pdf'], structs=[dict(cls='vegas_pdf', cls_targs=['double'])],
+         defines=['VP_BINSMAX=1048576', 'VP_DIMSMAX=1024'], props=['C07'], split='auto',
+         assumptions=['C07.safe hypothesis: the redistribution search stops inside the grid (bin < bins assumed at each step)', 'libm pow/log: assumed contracts',
+                      'the new grid is observed through one arbitrary ghost boundary (abstraction documented in specs/vegas_refine_pdf.spec)']),
     dict(name='refine_weights', functions=['multi_channel_refine_weights'], entry='h_multi_channel_refine_weights',
          enforce='multi_channel_refine_weights', replace=['vp_pow'], af=['multi_channel_refine_weights'], globals='T vp_g_s1, vp_g_s2; _Bool vp_g_nodata;',
          defines=['VP_NMAX=1048576'], props=['C08'], thorough_reals=['float'],
@@ -306,9 +313,14 @@ B2JOBS = [
 B2JOBS.append(dict(name='int_lemmas', mode='int', functions=[], property_file='specs/int_lemmas.smt2',
                    props=['C07', 'C17', 'C01', 'C10', 'C02']))
 
+_MCR = {'mc_result': [('size_t', 'calls_'), ('size_t', 'non_zero_calls_'), ('size_t', 'finite_calls_'), ('T', 'sum_'), ('T', 'sum_of_squares_')]}
+B2JOBS.append(dict(name='result_formulas', mode='real', functions=['mc_result_value', 'mc_result_variance', 'mc_result_error'], structs=_MCR,
+                   property_file='specs/C13.smt2', props=['C02', 'C13'],
+                   assumptions=['B2r: floating-point arithmetic treated as real arithmetic for the formula identities (rounding is C14\'s subject)']))
+
 NATIVEJOBS = []
 
 REPLAYS = {'c16_tiling': dict(cpp='c16', link_fragments=sorted(FRAGMENTS)),
            'invoke_nodist': 'invoke', 'invoke_dist': 'invoke',
-           'refine_weights': 'refine_weights', 'chkpt_rollback': 'chkpt', 'chkpt_add': 'chkpt', 'chkpt_generator': 'chkpt',
+           'refine_weights': 'refine_weights', 'result_formulas': 'result', 'callback_decision': 'callback', 'weighted_with_variance': 'callback', 'chkpt_rollback': 'chkpt', 'chkpt_add': 'chkpt', 'chkpt_generator': 'chkpt',
            'discrete_ctor': 'discrete', 'discrete_call': 'discrete', 'discrete_select': 'discrete', 'partial_sum': 'discrete'}
